@@ -80,7 +80,29 @@ def decoders():
     return d
 
 
+def timed_main():
+    """no tracer: CPU time per call (work done inside C code — a regular expression, a huge allocation — is invisible to the line count)"""
+    import time
+    inp = json.load(sys.stdin)
+    decs = decoders()
+    out = []
+    for name, buf in inp:
+        b = bytearray(buf)
+        t0 = time.process_time()
+        try:
+            decs[name](b)
+            r = "ok"
+        except MemoryError:
+            r = "budget"
+        except Exception as e:  # noqa
+            r = "exn:" + type(e).__name__
+        out.append([r, round(time.process_time() - t0, 4)])
+    print(json.dumps(out))
+
+
 def main():
+    if "--timed" in sys.argv:
+        return timed_main()
     inp = json.load(sys.stdin)
     decs = decoders()
     out = []
